@@ -508,6 +508,8 @@ func checkC08(c *runCtx) {
 	// a passive ICE-TCP candidate (TCPMux) whose peer stops reading: writes block inside the agent's loop
 	vtSearch(c, p, vtSpec{Name: "passive TCP candidate, peer stops reading, close at every position", Model: "tcpclose",
 		Cfg: gatherCfg{Ifaces: gIfacesBasic, NetTypes: []string{"tcp4"}, CandTypes: []string{"host"}, TCPMux: "10.0.0.1:7001", Depth: depth + 2}, Deadline: dl})
+	vtSearch(c, p, vtSpec{Name: "passive TCP candidate of an agent that has not started (nobody reads the connection, which queues one packet), the peer keeps sending, close at every position", Model: "tcpclose",
+		Cfg: gatherCfg{Ifaces: gIfacesBasic, NetTypes: []string{"tcp4"}, CandTypes: []string{"host"}, TCPMux: "10.0.0.1:7001", Depth: depth + 1, TCPReadBuf: 1, NoStart: true}, Deadline: dl})
 	// the blocking Dial / Accept themselves: connect, cancel the caller's context or close, in every order
 	for _, role := range []string{"controlling", "controlled"} {
 		vtSearch(c, p, vtSpec{Name: fmt.Sprintf("a caller blocked in Dial / Accept (%s), all sequences of length <= %d", role, depth+3), Model: "dialclose",
@@ -542,8 +544,10 @@ type tcpCloseModel struct {
 func newTCPCloseModel(raw json.RawMessage) *tcpCloseModel {
 	m := &tcpCloseModel{gatherWorld: newGatherWorld(raw)}
 	m.strict = true
-	if _, err := m.a.StartAccept(vUfragB, vPwdB); err != nil {
-		panic(err)
+	if !m.cfg.NoStart {
+		if _, err := m.a.StartAccept(vUfragB, vPwdB); err != nil {
+			panic(err)
+		}
 	}
 	synctest.Wait()
 
